@@ -660,7 +660,7 @@ func (e *Evaluator) evalBinaryExpr(expr *ExprBinary) (*Cell, error) {
 			// creates it, on an array or a scalar it fails like any other member
 			// store), see evalAssignment
 			key := right.Value.String()
-			bound.Value.ParentObj = &receiver
+			bound.Value.ParentObj = &left.Value
 			bound.Value.Str = &key
 			return bound, nil
 		}
